@@ -29,13 +29,14 @@ type FuncResult struct {
 	Unsupported []string
 	Assumed     []string
 	Inlined     []string
+	Uses        []string // in-repo callees applied by contract (their contracts carry this function's proof)
 	Inputs      []string // symbols worth reporting in a model
 	ctx         *Ctx
 	Seconds     float64
 }
 
 func (P *Program) newCtx(fn *ssa.Function) *Ctx {
-	return &Ctx{prog: P, fn: fn, declared: map[string]string{}, assumed: map[string]bool{}, inlined: map[string]bool{},
+	return &Ctx{prog: P, fn: fn, declared: map[string]string{}, assumed: map[string]bool{}, inlined: map[string]bool{}, uses: map[string]bool{},
 		strConsts: map[string]string{}, oblSeq: map[string]int{}, curReach: "true",
 		seenTypes: map[string]bool{}, seenIfaces: map[string]bool{}, phiConds: map[phiKey]string{}, atCallSeen: map[*AtClause]bool{}, curTopBlock: -1, curEdgeFrom: -1}
 }
@@ -65,6 +66,10 @@ func (P *Program) VerifyFunc(fn *ssa.Function) (res *FuncResult) {
 			res.Inlined = append(res.Inlined, k)
 		}
 		sort.Strings(res.Inlined)
+		for k := range c.uses {
+			res.Uses = append(res.Uses, k)
+		}
+		sort.Strings(res.Uses)
 		res.Seconds = time.Since(start).Seconds()
 	}()
 
